@@ -16,6 +16,8 @@ CONSTANTS
   PForms <- NoCatalog
   Containers <- NoCatalog
   OvKVals <- TrOv
+  SForms <- NoCatalog
+  KeySortSeq <- TrSort
   Configs <- NoConfigs
   Comp <- TraceComp
 INVARIANT Verdict
